@@ -31,6 +31,8 @@ META["explanation"] += ' Shared clauses: R04.3 (next_now / next_ref_now read the
 META["explanation"] += ' R01.6b a function that replaces the state handle of an existing Subscriber (clone_from, mem::replace, assignment) stores the matching observed version on every path.'
 META["explanation"] += ' R01.13 the notify function adds 1 to the version on every path to its return (no "nobody is parked" early return). R01.14 derived state: a field of ObservableState other than value/metadata that some state method computes from the value and another reads (a cached hash, a flag) is rewritten on every path after each mutable access to the value; today there is no such field and the rule reports that.'
 META["explanation"] += ' R01.4e every Ready(Some) of a subscriber poll path (both flavours) is dominated by the call of the poll leaf. R01.6 / R04.3 accept pure delegation to the sibling that is judged itself (next_now = next_ref_now().clone()).'
+META["explanation"] += " R01.4b the leaf's Ready(Some) guard is observed < version, not `!=` (which also holds after close stored the sentinel 0: the last value would be delivered again)."
+META["explanation"] += ' Shared with C16: R16.6 (an update marked as observed is handed out in the same resumption).'
 
 STATE = "state::ObservableState::<T>::"
 CALL_CLOSURE = r"(FnOnce|FnMut|Fn)(<.*>>?)?::call(_once|_mut)?$"
@@ -128,6 +130,7 @@ def run(ctx):
     r01_14(ctx)
     from . import c16
     c16.ready_from_leaf(ctx, "R01.4e")   # no Ready(Some) built past the leaf (its closed test and version bookkeeping)
+    c16.r16_6(ctx)   # an update marked as observed is handed out in the same resumption: a dropped future loses nothing
     from . import groups, c04
     c04.r04_3(ctx)  # the value handed out and the version marked as observed must come from one guard, else an update is skipped
     groups.eyeball_close_and_wake(ctx)  # a premature or missing close makes next() ready (None) / pending at the wrong time
@@ -611,6 +614,8 @@ def r01_6(ctx, init):
         if not b:
             continue
         for loc, kind, e in writes(b):
+            if f.kind in ("closure", "coroutine") and kind == "mut-borrow" and not obs_rooted(f, e):
+                continue   # a captured local variable that happens to be called observed_version, not the subscriber's field
             if kind == "mut-borrow":
                 # must flow into the poll leaf
                 uses = [t for blk, t in b.calls() if any(a["k"] in ("move", "copy") and _is_field(strip(b.expr_of_op(a), through_calls=False), "observed_version") for a in t["args"])]
